@@ -76,6 +76,7 @@ var acceptGates = []GateSpec{
 }
 
 func ruleAcceptDominators(c *Ctx) {
+	ruleDeferredRootCoverage(c)
 	runGates(c, acceptGates)
 	// the header of a block being added is verified unless verification is switched off by configuration
 	argMentions(c, "AddBlock.addHeaders.verify-arg", [3]string{"pkg/core", "Blockchain", "AddBlock"}, symBC+"addHeaders", 0, cfgSkipVerify)
@@ -113,6 +114,11 @@ var admitGates = []GateSpec{
 
 func ruleAdmitDominators(c *Ctx) {
 	runGates(c, admitGates)
+	// boundaries of the admission checks: exactly-at-the-limit cases are part of what the ledger accepts in a block
+	fnV := [3]string{"pkg/core", "Blockchain", "verifyAndPoolTx"}
+	boundary(c, "verifyAndPoolTx.size-boundary", fnV, "pkg/core/transaction.MaxTransactionSize", true, "above", "a transaction size", false, 1)
+	boundary(c, "verifyAndPoolTx.vub-window-boundary", fnV, symBC+"GetMaxValidUntilBlockIncrement", true, "above", "a ValidUntilBlock", false, 1)
+	boundary(c, "verifyAndPoolTx.fee-boundary", fnV, fldTxNetFee, false, "below", "the network fee left after the size and attribute part (limit 0)", true, 1)
 	// fee exactness: witnesses are verified with exactly what is left of the network fee after the size/attribute part
 	argMentions(c, "verifyAndPoolTx.witness-budget", [3]string{"pkg/core", "Blockchain", "verifyAndPoolTx"}, symBC+"verifyTxWitnesses", 3,
 		fldTxNetFee, symTxSize, symBC+"FeePerByte", symBC+"CalculateAttributesFee")
